@@ -17,6 +17,8 @@ pub fn run(ctx: &Ctx) -> Report {
         Plan { fam: "FENCE", styles: plain.clone(), debug: both.clone(), stride: 1 },
         Plan { fam: "LAB", styles: plain.clone(), debug: both.clone(), stride: 1 },
         Plan { fam: "STR", styles: plain.clone(), debug: both.clone(), stride: ctx.pick(3, 1) },
+        // scale family: counts and lengths past 2^5 .. 2^16 (label length, blocks, statements, initialized runs, externals' uses), also spread over > 65536 lines
+        Plan { fam: "BIG", styles: vec![(0u64, DEFAULT_SECONDARY), (0u64, 1 + 160 * 4)], debug: both.clone(), stride: 1 },
     ];
     plans.push(Plan { fam: "S3", styles: if ctx.thorough() { two.clone() } else { plain.clone() }, debug: if ctx.thorough() { both.clone() } else { vec![true] }, stride: ctx.pick(7, 1) });
     run_plans(ctx, &mut rep, "C01", &plans, &|i| i.wellformed && i.accepted && i.image_words > 0);
